@@ -114,8 +114,14 @@ func Generate(o Options) Package {
 		decls.WriteString("\n")
 	}
 	body.WriteString("package gen\n\n")
-	if strings.Contains(decls.String(), "machine.") {
+	um, ud := strings.Contains(decls.String(), "machine."), strings.Contains(decls.String(), "disk.")
+	switch {
+	case um && ud:
+		body.WriteString("import (\n\t\"github.com/goose-lang/goose/machine\"\n\t\"github.com/goose-lang/goose/machine/disk\"\n)\n\n")
+	case um:
 		body.WriteString("import \"github.com/goose-lang/goose/machine\"\n\n")
+	case ud:
+		body.WriteString("import \"github.com/goose-lang/goose/machine/disk\"\n\n")
 	}
 	body.WriteString(decls.String())
 	// transitive keys: an entry inherits the keys of every function (over-approximation keeps masking sound)
